@@ -44,20 +44,17 @@ func verifSockets() error {
 	return nil
 }
 
-// VerifNewOffline builds a Frontend the way NewFrontend does but without a
-// listening socket and without the serve goroutine.
+// VerifNewOffline builds a Frontend through the REAL NewFrontend (bound to an ephemeral loopback
+// port, serve goroutine running but never receiving anything), so that whatever NewFrontend does
+// with the provided configuration - validation, the connection-ID generator pool and its key - is
+// what the driver then exercises through VerifHandle.  Call Stop() on it when done.
 func VerifNewOffline(logic frontend.TrackerLogic, provided Config) *Frontend {
-	cfg := provided.Validate()
-	return &Frontend{
-		closing: make(chan struct{}),
-		logic:   logic,
-		Config:  cfg,
-		genPool: &sync.Pool{
-			New: func() interface{} {
-				return NewConnectionIDGenerator(cfg.PrivateKey)
-			},
-		},
+	provided.Addr = "127.0.0.1:0"
+	f, err := NewFrontend(logic, provided)
+	if err != nil {
+		panic("verif shim: NewFrontend failed: " + err.Error())
 	}
+	return f
 }
 
 // VerifHandle runs handleRequest on one datagram from srcIP and returns the
